@@ -167,10 +167,24 @@ impl Callbacks for Cb {
         let is_test = tcx.sess.is_test_crate();
 
         let mut bodies = vec![];
+        let mut consts = vec![];
         for ldid in tcx.hir_body_owners() {
             let did = ldid.to_def_id();
             let kind = tcx.def_kind(did);
             let is_fn = matches!(kind, DefKind::Fn | DefKind::AssocFn | DefKind::Closure);
+            if matches!(kind, DefKind::Const { .. } | DefKind::AssocConst { .. }) {
+                // named constants (tables of names, limits): their typed HIR initialiser, so that a rule reading a
+                // literal in a function can also read it when it was moved into a `const`
+                let (line, file, _) = span_j(tcx, tcx.def_span(did));
+                let ty = tcx.type_of(did).instantiate_identity().skip_norm_wip();
+                consts.push(J::obj()
+                    .set("path", J::s(tcx.def_path_str(did)))
+                    .set("ty", J::s(format!("{}", ty)))
+                    .set("file", J::s(short_file(&file)))
+                    .set("line", J::Int(line))
+                    .set("hir", hirdump::body_j(tcx, ldid)));
+                continue;
+            }
             if !is_fn { continue; }
             let path = tcx.def_path_str(did);
             let (line, file, exp) = span_j(tcx, tcx.def_span(did));
@@ -212,6 +226,7 @@ impl Callbacks for Cb {
             .set("statics", statics)
             .set("impls", impls)
             .set("aliases", aliases)
+            .set("consts", J::Arr(consts))
             .set("bodies", J::Arr(bodies));
         let mut s = String::new();
         root.write(&mut s);
